@@ -257,8 +257,13 @@ def rule_roll_closes_writer(ctx, p, cfg, rid="R3"):
             if s.get("lhs_ty") == slot_ty:
                 e = f._rvalue(s["rv"], frozenset(), 20, bid)
                 hits.append((bid, e, s))
-        r.require(len(hits) >= 1 and all(e[0] == "agg" and e[2] == "None" for _, e, _ in hits), "assigns-none", fn=f,
-                  detail="LogFile::roll assigns None to the writer slot: %s" % [show(e) for _, e, _ in hits])
+        # `self.writer.take()` (the value dropped, never put back: any insert/replace in roll() is reported below) empties the slot as `*self.writer = None` does
+        took = [c for c in f.calls() if (c.callee or "").rsplit("::", 1)[-1] == "take" and "Option" in (c.callee or "") and c.t.get("arg_tys") and slot_ty in c.t["arg_tys"][0]]
+        r.require((len(hits) >= 1 or bool(took)) and all(e[0] == "agg" and e[2] == "None" for _, e, _ in hits), "assigns-none", fn=f,
+                  detail="LogFile::roll assigns None to the writer slot: %s%s" % ([show(e) for _, e, _ in hits], " / takes its value out (%d site)" % len(took) if took else ""))
+        for c in took:
+            r.require(all(f.dominates(c.block, rb) for rb in f.return_blocks()), "unconditional", fn=f, site=c.at, detail="the take() is on every path to return")
+            r.require(any(x == ("param", 1) for x in walk(c.arg(0))), "own-slot", fn=f, site=c.at, detail="the slot emptied is self.%s's target" % ro["lf_writer"])
         for (b, e, s) in hits:
             base = s["lhs"]
             r.require(all(f.dominates(b, rb) for rb in f.return_blocks()), "unconditional", fn=f, detail="the assignment is on every path to return")
@@ -271,7 +276,7 @@ def rule_roll_closes_writer(ctx, p, cfg, rid="R3"):
                 if s.get("lhs_ty") == slot_ty:
                     writers.add(path)
         allowed = {ROLL_FN, ro["get_writer"].path}
-        r.require(writers <= allowed and ROLL_FN in writers, "only-roll-and-opener-write-slot",
+        r.require(writers <= allowed and (ROLL_FN in writers or bool(took)), "only-roll-and-opener-write-slot",
                   detail="functions assigning the Option<LogWriter> slot through a reference: %s" % sorted(writers))
         # take()/replace() on the slot elsewhere would also close it: inventory
         takers = []
@@ -282,6 +287,8 @@ def rule_roll_closes_writer(ctx, p, cfg, rid="R3"):
                     if c.t.get("arg_tys") and slot_ty in c.t["arg_tys"][0]:
                         if path == ro["get_writer"].path and nm in ("insert", "get_or_insert_with", "get_or_insert"):
                             continue   # the opener filling the empty slot (`slot.insert(w)` is `*slot = Some(w)`)
+                        if path == ROLL_FN and nm == "take":
+                            continue   # roll() emptying the slot (examined above)
                         if path == ro["get_writer"].path and nm == "take" and _take_is_put_back(g, c, slot_ty):
                             continue   # `match slot.take() { Some(w) => w, None => open()? }` .. `slot.insert(w)`: what was taken is put back
                         takers.append(path)
